@@ -27,7 +27,7 @@ type Class struct {
 }
 
 var classes = []*Class{
-	{ID: "default", Full: `[^/]+`, Samples: []string{"1", "22", "abc", "x.y", "a-b", "v1.0"}, Near: []string{""}},
+	{ID: "default", Full: `[^/]+`, Samples: []string{"1", "22", "abc", "x.y", "a-b", "v1.0", "a%20b", "%2541"}, Near: []string{""}},
 	{ID: "digits", Re: `\d+`, Full: `\d+`, Samples: []string{"1", "22", "007"}, Near: []string{"a", "1a", ""}},
 	{ID: "ac", Re: `[a-c]+`, Full: `[a-c]+`, Samples: []string{"a", "abc", "cab"}, Near: []string{"d", "ab1", ""}},
 	{ID: "pos", Re: `[1-9]\d*`, Full: `[1-9]\d*`, Samples: []string{"1", "22", "90"}, Near: []string{"0", "01", "a"}},
@@ -511,8 +511,8 @@ func MutatePath(r *rand.Rand, path string) string {
 				return path[:i] + pick(r, []string{"a", "1", "z", ".", "-"}) + path[i+1:]
 			}
 		}
-	case 5: // trailing slash (insignificant in non-strict mode)
-		return path + "/"
+	case 5: // trailing slash(es) (insignificant in non-strict mode)
+		return path + pick(r, []string{"/", "/", "//", "///"})
 	case 6: // missing leading slash / doubled leading slash
 		if chance(r, 1, 2) {
 			return strings.TrimPrefix(path, "/")
